@@ -306,6 +306,8 @@ buildexe(struct input *inputs, size_t ninputs, char *output)
 	if (!flags.nostdlib && startfiles[0])
 		arrayaddbuf(&s->cmd, startfiles, sizeof(startfiles));
 	for (i = 0; i < ninputs; ++i) {
+		if (inputs[i].filetype == CHDR)
+			continue;  /* headers take no part in linking */
 		if (inputs[i].lib)
 			arrayaddptr(&s->cmd, "-l");
 		arrayaddptr(&s->cmd, inputs[i].name);
@@ -320,7 +322,7 @@ buildexe(struct input *inputs, size_t ninputs, char *output)
 	if (waitpid(pid, &status, 0) < 0)
 		fatal("waitpid %ju:", (uintmax_t)pid);
 	for (i = 0; i < ninputs; ++i) {
-		if (inputs[i].filetype != OBJ)
+		if (inputs[i].filetype != OBJ && inputs[i].filetype != CHDR)
 			unlink(inputs[i].name);
 	}
 	exit(!succeeded(s->name, pid, status));
